@@ -26,14 +26,14 @@ func (ie *IfExpression) String() string {
 	var out bytes.Buffer
 
 	out.WriteString("if (")
-	out.WriteString(ie.Condition.String())
+	out.WriteString(nodeString(ie.Condition))
 	out.WriteString(") { ")
 	out.WriteString(ie.Block.String())
 	out.WriteString(" }")
 
 	for _, elseIf := range ie.ElseIf {
 		out.WriteString(" } else if (")
-		out.WriteString(elseIf.Condition.String())
+		out.WriteString(nodeString(elseIf.Condition))
 		out.WriteString(") { ")
 		out.WriteString(elseIf.Block.String())
 		out.WriteString(" }")
